@@ -2,7 +2,8 @@
 // but are not exposed by Status(): the vote tally of a candidate, electionElapsed (lease /
 // CheckQuorum bookkeeping, pass 2 only) and — the only write — pinning the randomised
 // election timeout so that ticks never start an election on their own (elections are the
-// explicit campaign event). While a node holds a Ready (apply lag, see evLag in cluster.go) two
+// explicit campaign event). While a node holds a Ready (apply lag / persist lag, see evLag and
+// evPLag in cluster.go) two
 // more things live inside the library only: the unstable part of the log (entries and snapshot
 // not yet handed out for persisting) and the messages not yet handed out for sending; both are
 // read here for the state key (after a complete Ready cycle both are empty). Field layout is
